@@ -51,10 +51,13 @@ class UpdateAttributesEffectiveChoice(HandlerInterface):
                 min_occurs.add(attr.restrictions.min_occurs)
                 max_occurs.add(attr.restrictions.max_occurs)
 
-                if attr.restrictions.sequence:
-                    sequences.add(attr.restrictions.sequence)
+                sequences.add(attr.restrictions.sequence)
 
-            if len(min_occurs) == len(max_occurs) == len(sequences) == 1:
+            # Symmetrical means every attr belongs to the same sequence as well
+            if (
+                len(min_occurs) == len(max_occurs) == len(sequences) == 1
+                and None not in sequences
+            ):
                 for attr in attrs:
                     assert attr.restrictions.max_occurs is not None
                     assert attr.restrictions.sequence is not None
